@@ -192,7 +192,7 @@ def exec_op(rec, st, op, k, arg, blockscan):
     return k
 
 
-def run_program(rec, m, rng, nsteps, thresholds=(0,), allow_reset=True, blockscan=False, maxid=50):
+def run_program(rec, m, rng, nsteps, thresholds=(0,), allow_reset=True, blockscan=False, maxid=50, hot=()):
     """Random program over matcher m (and copies / replacements); the steps taken are
     kept in rec.program so that the same program can be re-executed (reexecute)."""
     k0 = rec.new(m)
@@ -212,6 +212,9 @@ def run_program(rec, m, rng, nsteps, thresholds=(0,), allow_reset=True, blocksca
         elif r < 0.55 and active:
             cur = m.id()
             t = rng.choice([cur, cur + 1, cur + 2, cur + rng.randrange(0, 6), max(0, cur - 1), maxid + 3])
+            ahead = [h for h in hot if h > cur]
+            if ahead and rng.random() < 0.35:
+                t = rng.choice(ahead)       # e.g. the number of a deleted document
             exec_op(rec, st, "skip_to", k, int(t), blockscan)
         elif r < 0.67 and active and m.supports_block_quality():
             exec_op(rec, st, "skipq", k, rng.choice(thresholds), blockscan)
